@@ -277,6 +277,9 @@ func fromOps(ops [][]string) []*history {
 		case "c":
 			if h != nil && len(f) > 5 {
 				c, _ := strconv.Atoi(f[1])
+				if f[4] == "wx" { // only the fsync-failure scenario produces wx
+					h.fault = true
+				}
 				byClient[c] = append(byClient[c], f[4:])
 				id, seen := u64(f[5]), false
 				for _, x := range h.ids {
